@@ -22,7 +22,7 @@ def trees(*names):
         os.makedirs(priv)
         atexit.register(shutil.rmtree, priv, True)
         with build.Lock(n):
-            for f in ("souffle", "souffleprof"):
+            for f in ("souffle", "souffleprof", "souffle-compile.py"):
                 a = os.path.join(os.path.dirname(src), f)
                 if os.path.exists(a):
                     try:
